@@ -15,6 +15,7 @@ import BespokeVerif.Model.Pipeline
 import BespokeVerif.Model.Select
 import BespokeVerif.Model.Macro
 import BespokeVerif.Model.Config
+import BespokeVerif.Model.Scan
 open Lean BV
 
 namespace Drv
@@ -567,6 +568,14 @@ def opRequire (j : Json) : R Json := do
       | _, _ => pure none
     return Json.mkObj [("ok", Json.bool (requireOk isaName iv name cmp))]
 
+/-- op "scan": statements of a program text as the model scanner sees them, and its canonical text -/
+def opScan (j : Json) : R Json := do
+  let v : Vocab := { mnemonics := ← strList j "mnemonics", registers := ← strList j "registers" }
+  let text ← str j "text"
+  let stmts := scanProgram v (splitLines text)
+  return Json.mkObj [("stmts", Json.arr (stmts.map fun st => Json.arr (st.map Json.str).toArray).toArray),
+                     ("canon", Json.str (String.intercalate "\n" (stmts.map stmtText) ++ "\n"))]
+
 def dispatch (j : Json) : R Json := do
   let op ← str j "op"
   match op with
@@ -580,6 +589,7 @@ def dispatch (j : Json) : R Json := do
   | "stmt" => opStmt j
   | "macro" => opMacro j
   | "validate" => opValidate j
+  | "scan" => opScan j
   | "require" => opRequire j
   | "ping" => pure (Json.mkObj [("pong", Json.bool true)])
   | _ => throw s!"unknown op {op}"
